@@ -107,6 +107,14 @@ def run(pid, tier, seed):
     res.obligations += [o for o in tmp.obligations]
     res.functions += tmp.functions
     res.struct += tmp.struct
+    from . import deps
+    dep = driver.Result(pid, tier, seed)
+    deps.add(dep, pid)
+    driver.discharge_cached([o for o in dep.obligations if o.result is None], tier, seed)
+    res.obligations += dep.obligations
+    res.struct += dep.struct
+    res.functions += dep.functions
+    res.notes += dep.notes
     res.extra["explanation"] = ("Repository-side conditions proved: (a) none of the six node classes customises reduction/copying (AST scan); "
                                 "(b) the two bookkeeping attributes are written only by the mixins' mutators and the node package keeps no "
                                 "module-level state (AST scan), so the tree is exactly the object graph reachable through them; (c) "
